@@ -98,12 +98,22 @@ pub enum Exit {
     /// a termination signal (0 TERM, 1 INT, 2 QUIT) arrives while the terminal object is being
     /// released: raised at schedule point `point` of the first poll iteration inside drop
     SignalInDispose { which: u8, point: u8 },
+    /// an application that cleans up after itself: mouse reporting on and cursor hidden
+    /// (delivered), later a frame of `frame` bytes is written and flushed, the application's own
+    /// cursor-visible / mouse-off commands are queued behind it, optionally one more poll, drop.
+    /// Judged by the state the terminal ends in (last set/reset of each mode it received).
+    DropAfterOwnCleanup { frame: u16, poll_after: bool },
 }
 
 #[derive(Clone, Debug, Serialize, Deserialize)]
 pub struct Case {
     pub rounds: Vec<Round>,
     pub exit: Exit,
+    /// the pty reports no pixel size through ioctl and the peer answers the size request
+    /// `CSI 18 t CSI 14 t`: the terminal object then learns its size from escape sequences,
+    /// and a SIGWINCH makes it ask the terminal instead of calling ioctl
+    #[serde(default)]
+    pub size_by_escape: bool,
 }
 
 const POINTS: [Point; 7] = [
@@ -159,23 +169,56 @@ fn contains(hay: &[u8], needle: &[u8]) -> bool {
     hay.windows(needle.len()).any(|w| w == needle)
 }
 
+/// state of the modes the closing sequence is about, as the terminal ends up with them: the
+/// last set (`h`) / reset (`l`) of each DEC private mode in everything it received
+fn final_mode(received: &[u8], mode: &str) -> Option<bool> {
+    let on = format!("\x1b[?{mode}h").into_bytes();
+    let off = format!("\x1b[?{mode}l").into_bytes();
+    let last = |needle: &[u8]| received.windows(needle.len()).rposition(|w| w == needle);
+    match (last(&on), last(&off)) {
+        (None, None) => None,
+        (Some(_), None) => Some(true),
+        (None, Some(_)) => Some(false),
+        (Some(a), Some(b)) => Some(a > b),
+    }
+}
+
 fn run_session(case: &Case) -> Result<(Pass, bool), Fail> {
     let pty = Pty::open().map_err(|e| inc(format!("cannot open pty: {e}")))?;
     let before = pty.termios().map_err(|e| inc(format!("tcgetattr: {e}")))?;
     let peer = Peer::spawn(&pty);
+    if case.size_by_escape {
+        pty.set_winsize_px(24, 80, 0, 0);
+        *peer.state.size_reply.lock().unwrap() = Some((24, 80, 480, 800));
+    }
     let sess = Session { pty, peer, before };
     let mut term = SystemTerminal::open(&sess.pty.slave_path)
         .map_err(|e| Fail::new("session/open-error", format!("SystemTerminal::open failed: {e:?}")))?;
+
     // handshake leftovers
     while let Ok(Some(_)) = term.poll(Some(Duration::ZERO)) {}
     let waker = term.waker();
     let mut rescue_used = false;
     let mut labels: Vec<&'static str> = Vec::new();
     let mut inside_poll = false;
+    if case.size_by_escape {
+        let by_escape = term.size().map(|s| s.pixels.height == 480 && s.pixels.width == 800).unwrap_or(false);
+        if by_escape && sess.peer.state.size_answered.load(Ordering::SeqCst) > 0 {
+            labels.push("size-taken-from-escape-sequences");
+        } else {
+            return Err(inc("the terminal object did not fall back to escape sequences for its size"));
+        }
+    }
 
     for (ri, round) in case.rounds.iter().enumerate() {
         // optional pending output
-        let held = round.hold_stall && round.pending_output > 4096 && round.timeout != Timeout::Infinite && round.position.is_none();
+        // (with the size taken from escape sequences a SIGWINCH is answered by asking the terminal:
+        // question and answer need the other end to read, so such a round cannot hold the stall)
+        let held = round.hold_stall
+            && round.pending_output > 4096
+            && round.timeout != Timeout::Infinite
+            && round.position.is_none()
+            && !(case.size_by_escape && matches!(round.what, What::Winch));
         if let Some(pr) = &round.position {
             let st = &sess.peer.state;
             st.cpr_row.store(pr.at.0.max(2) as usize, Ordering::SeqCst);
@@ -201,6 +244,7 @@ fn run_session(case: &Case) -> Result<(Pass, bool), Fail> {
             labels.push("output-pending");
         }
         let fired = Rc::new(Cell::new(false));
+        let fired_flag = Arc::new(AtomicBool::new(false));
         let action: Rc<RefCell<Box<dyn FnMut()>>> = {
             let waker = waker.clone();
             let master_input = match &round.what {
@@ -230,11 +274,13 @@ fn run_session(case: &Case) -> Result<(Pass, bool), Fail> {
             Place::BeforePoll => {
                 (action.borrow_mut())();
                 fired.set(true);
+                fired_flag.store(true, Ordering::SeqCst);
             }
             Place::At { point, iter } => {
                 let target = POINTS[point as usize % POINTS.len()];
                 let iters = Rc::new(Cell::new(0u32));
                 let fired2 = fired.clone();
+                let fired_flag2 = fired_flag.clone();
                 let action2 = action.clone();
                 unix_verif_hooks::set_point_hook(Some(Box::new(move |p| {
                     if p == Point::LoopStart {
@@ -243,6 +289,7 @@ fn run_session(case: &Case) -> Result<(Pass, bool), Fail> {
                     if !fired2.get() && p == target && iters.get() == iter as u32 + 1 {
                         fired2.set(true);
                         (action2.borrow_mut())();
+                        fired_flag2.store(true, Ordering::SeqCst);
                     }
                 })));
             }
@@ -262,6 +309,14 @@ fn run_session(case: &Case) -> Result<(Pass, bool), Fail> {
         let rescued = Arc::new(AtomicBool::new(false));
         let rescue = if timeout.is_none() {
             let (done, rescued) = (done.clone(), rescued.clone());
+            let fired_flag = fired_flag.clone();
+            let round_dbg = format!("{round:?}");
+            let what_sig = match (&round.what, &round.position) {
+                (_, Some(_)) => "position/cannot-be-ended",
+                (What::Wake { .. }, _) => "wake/poll-cannot-be-ended",
+                (What::Input(_), _) => "input/poll-cannot-be-ended",
+                (What::Winch, _) => "signal/winch-poll-cannot-be-ended",
+            };
             let master_fd = {
                 use std::os::fd::AsRawFd;
                 sess.pty.master.as_raw_fd()
@@ -280,16 +335,21 @@ fn run_session(case: &Case) -> Result<(Pass, bool), Fail> {
                 unsafe {
                     libc::write(master_fd, b"~".as_ptr() as *const libc::c_void, 1);
                 }
-                // stage 2: nothing ends this poll; give up on the whole process (the engine
-                // attributes the death of the worker to this case)
-                while t0.elapsed() < Duration::from_secs(10) {
+                // stage 2: not even typed input ends this poll: the thread inside it is lost, the
+                // verdict is reported from here and the worker process ends
+                while t0.elapsed() < Duration::from_secs(6) {
                     if done.load(Ordering::Relaxed) {
                         return;
                     }
                     std::thread::sleep(Duration::from_millis(5));
                 }
-                eprintln!("poll(None) cannot be ended: giving up");
-                unsafe { libc::_exit(3) };
+                if fired_flag.load(Ordering::SeqCst) {
+                    worker_fail_and_exit(Fail::new(
+                        what_sig,
+                        format!("round {ri} ({round_dbg}): poll(None) did not return within 6 s although the calls that must end it had completed, and a character typed by the peer after 3 s did not end it either"),
+                    ));
+                }
+                worker_fail_and_exit(inc("poll(None) could not be ended and its trigger had not fired"));
             }))
         } else {
             None
@@ -526,6 +586,21 @@ fn run_session(case: &Case) -> Result<(Pass, bool), Fail> {
                 }
             }
             What::Winch => {
+                if case.size_by_escape {
+                    // the terminal object asks the terminal for its size; the question and the
+                    // answer travel through the pty: bounded 2 s, as for typed characters
+                    let t1 = Instant::now();
+                    while !events.iter().any(|e| matches!(e, TerminalEvent::Resize(_))) && t1.elapsed() < Duration::from_secs(2) {
+                        match term.poll(Some(Duration::from_millis(10))) {
+                            Ok(Some(ev)) => events.push(ev),
+                            Ok(None) => {}
+                            Err(e) => {
+                                return Err(Fail::new("session/poll-error", format!("round {ri}: poll failed while draining: {e:?}")));
+                            }
+                        }
+                    }
+                    labels.push("winch-answered-by-escape-sequence");
+                }
                 let resizes = events.iter().filter(|e| matches!(e, TerminalEvent::Resize(_))).count();
                 ensure!(
                     resizes >= 1,
@@ -543,8 +618,44 @@ fn run_session(case: &Case) -> Result<(Pass, bool), Fail> {
     // ---- exit path
     let da1_before = sess.peer.state.da1_answered.load(Ordering::Relaxed);
     let mut expect_epilogue = true;
+    let mut own_cleanup = false;
     let mut signal_in_dispose: Option<Rc<Cell<bool>>> = None;
     match case.exit {
+        Exit::DropAfterOwnCleanup { frame, poll_after } => {
+            use surf_n_term::{DecMode, TerminalCommand};
+            let exec = |term: &mut SystemTerminal, cmd: TerminalCommand| {
+                term.execute(cmd).map_err(|e| Fail::new("session/execute-error", format!("{e:?}")))
+            };
+            for mode in [DecMode::MouseReport, DecMode::MouseSGR, DecMode::MouseMotions] {
+                exec(&mut term, TerminalCommand::DecModeSet { enable: true, mode })?;
+            }
+            exec(&mut term, TerminalCommand::visible_cursor_set(false))?;
+            let t0 = Instant::now();
+            loop {
+                term.poll(Some(Duration::ZERO)).map_err(|e| Fail::new("session/poll-error", format!("{e:?}")))?;
+                if term.frames_pending() == 0 {
+                    break;
+                }
+                if t0.elapsed() > Duration::from_secs(10) {
+                    return Err(inc("output queue did not drain before the exit path"));
+                }
+            }
+            term.write_all(&vec![b'F'; frame as usize]).map_err(|e| Fail::new("session/write-error", format!("{e:?}")))?;
+            term.flush().map_err(|e| Fail::new("session/write-error", format!("{e:?}")))?;
+            exec(&mut term, TerminalCommand::visible_cursor_set(true))?;
+            for mode in [DecMode::MouseMotions, DecMode::MouseSGR, DecMode::MouseReport] {
+                exec(&mut term, TerminalCommand::DecModeSet { enable: false, mode })?;
+            }
+            if poll_after {
+                term.poll(Some(Duration::ZERO)).map_err(|e| Fail::new("session/poll-error", format!("{e:?}")))?;
+            }
+            own_cleanup = true;
+            expect_epilogue = false;
+            labels.push("application-cleans-up-itself-before-drop");
+            if term.frames_pending() > 0 {
+                labels.push("drop-with-pending-output");
+            }
+        }
         Exit::Drop => {}
         Exit::DropPending(n) => {
             term.write_all(&vec![b'#'; n]).map_err(|e| Fail::new("session/write-error", format!("{e:?}")))?;
@@ -707,6 +818,28 @@ fn run_session(case: &Case) -> Result<(Pass, bool), Fail> {
         termios_show(&after),
         termios_show(&before)
     );
+    if own_cleanup {
+        // the application enabled mouse reporting and hid the cursor: whatever it queued
+        // itself and whatever of that was discarded at release, the terminal must end up with
+        // mouse reporting off and the cursor visible
+        let received = peer.received();
+        for (mode, want_on, what) in [
+            ("1003", false, "mouse motion reporting"),
+            ("1006", false, "SGR mouse mode"),
+            ("1000", false, "mouse reporting"),
+            ("25", true, "cursor visibility"),
+        ] {
+            let state = final_mode(&received, mode);
+            ensure!(
+                state == Some(want_on),
+                "restore/terminal-left-in-application-mode",
+                "exit {:?}: the application had switched mouse reporting on and the cursor off; after the terminal object was released the last thing the tty received for {what} (DEC mode {mode}) is {:?} (true = set); bytes received during release: {:?}",
+                case.exit,
+                state,
+                String::from_utf8_lossy(&received[received_before_drop.min(received.len())..]).escape_debug().to_string()
+            );
+        }
+    }
     if expect_epilogue {
         let received = peer.received();
         let tail = &received[received_before_drop.min(received.len())..];
@@ -819,9 +952,10 @@ impl Property for C17 {
             2 => (0u8..3, 0u8..7).prop_map(|(which, point)| Exit::SignalInDispose { which, point }),
             2 => (20_000usize..200_000, 1usize..3000).prop_map(|(big, small)| Exit::DropBackpressure { big, small }),
             1 => Just(Exit::MasterClosed),
+            2 => (0u16..3000, any::<bool>()).prop_map(|(frame, poll_after)| Exit::DropAfterOwnCleanup { frame, poll_after }),
         ];
-        (proptest::collection::vec(round, 0..5), exit)
-            .prop_map(|(rounds, exit)| Case { rounds, exit })
+        (proptest::collection::vec(round, 0..5), exit, proptest::bool::weighted(0.25))
+            .prop_map(|(rounds, exit, size_by_escape)| Case { rounds, exit, size_by_escape })
             .boxed()
     }
 
@@ -844,7 +978,7 @@ impl Property for C17 {
     }
 
     fn rule(&self) -> String {
-        "session = real SystemTerminal on a pseudo-terminal (one per worker process) with a scripted peer; 0-4 rounds, each: {1-3 concurrent wake calls from other threads | the peer types 1-6 characters | raise(SIGWINCH)} placed before the poll or at one of 7 named points (loop start, before/after select, before signal processing, before the waker read, before the tty read, loop end) of loop iteration 0-2 of a poll with timeout 0 / 50 ms / none, optionally with 1-40000 bytes of output pending (above 4096 the peer is stalled, for 30 ms or -- finite timeouts, half of those rounds -- until the round's events have been delivered, which zero-timeout polls must achieve within 2 s although the output stays pending); then drained with zero-timeout polls. One round in ten calls Terminal::position() instead of poll: the peer answers the cursor position request after 0 / 1-59 / 200-399 / 1200 ms, optionally typing 1-3 characters in the same write as its answer; nothing that arrived meanwhile may be lost or reordered. Oracles: >=1 and <= #calls Wake events for wake rounds, typed characters delivered in order, >=1 Resize per SIGWINCH round, no spurious Wake. Exit path: drop | drop with pending output | Terminal::run handler error/quit at step k | run_render handler error at step k | SIGTERM/SIGINT/SIGQUIT (must surface as Error::Quit) | SIGTERM/SIGINT/SIGQUIT raised at one of the 7 points of the first poll iteration inside drop | drop with the front chunk of the output queue partly transmitted (peer stalled, 20-200 kB written and polled, 1-3000 more bytes queued, peer resumes, drop) | master closed first; afterwards tcgetattr on the slave must equal the snapshot taken before open and (master still open) the bytes received after the last application output must contain ESC[?1003l, ESC[?1006l, ESC[?1000l and ESC[?25h. non-trivial = a trigger placed strictly inside a poll or inside the release, or output pending during a round or at release".into()
+        "session = real SystemTerminal on a pseudo-terminal (one per worker process) with a scripted peer; 0-4 rounds, each: {1-3 concurrent wake calls from other threads | the peer types 1-6 characters | raise(SIGWINCH)} placed before the poll or at one of 7 named points (loop start, before/after select, before signal processing, before the waker read, before the tty read, loop end) of loop iteration 0-2 of a poll with timeout 0 / 50 ms / none, optionally with 1-40000 bytes of output pending (above 4096 the peer is stalled, for 30 ms or -- finite timeouts, half of those rounds -- until the round's events have been delivered, which zero-timeout polls must achieve within 2 s although the output stays pending); then drained with zero-timeout polls. One round in ten calls Terminal::position() instead of poll: the peer answers the cursor position request after 0 / 1-59 / 200-399 / 1200 ms, optionally typing 1-3 characters in the same write as its answer; nothing that arrived meanwhile may be lost or reordered. Oracles: >=1 and <= #calls Wake events for wake rounds, typed characters delivered in order, >=1 Resize per SIGWINCH round, no spurious Wake. Exit path: drop | drop with pending output | Terminal::run handler error/quit at step k | run_render handler error at step k | SIGTERM/SIGINT/SIGQUIT (must surface as Error::Quit) | SIGTERM/SIGINT/SIGQUIT raised at one of the 7 points of the first poll iteration inside drop | drop with the front chunk of the output queue partly transmitted (peer stalled, 20-200 kB written and polled, 1-3000 more bytes queued, peer resumes, drop) | an application that switched mouse reporting on and the cursor off, wrote a frame, queued its own cursor-visible/mouse-off commands behind it (optionally polled once) and is dropped: the last set/reset the tty received for modes 1000, 1003, 1006 must be reset and for mode 25 set | master closed first; one session in four runs on a pty whose ioctl reports no pixel size while the peer answers CSI 18 t CSI 14 t, so the terminal object takes its size from escape sequences and answers SIGWINCH by asking the terminal (the Resize event then gets the same bounded 2 s as typed characters); afterwards tcgetattr on the slave must equal the snapshot taken before open and (master still open) the bytes received after the last application output must contain ESC[?1003l, ESC[?1006l, ESC[?1000l and ESC[?25h. non-trivial = a trigger placed strictly inside a poll or inside the release, or output pending during a round or at release".into()
     }
 
     fn assumptions(&self) -> Vec<String> {
